@@ -42,12 +42,33 @@ int main(int argc, char **argv)
     char *tag = new char[capt], *val = new char[capv];
     unsigned r = mode == "extractfw" ? MessageBase::extract_element_fixed_width(src, in.size(), vs, tag, val) : MessageBase::extract_element(src, in.size(), tag, val);
     printf("RESULT %u of %zu\n", r, in.size());
-    return r > in.size() ? 5 : 0;
+    // 5: consumed more than the input, or (fixed width) the byte charged as field separator is not SOH
+    return r > in.size() || (mode == "extractfw" && r > 0 && in[r - 1] != 1) ? 5 : 0;
   }
   if (mode == "trailer") {
     std::string in = unhex(argv[2]); f8String s(in.data(), in.size()); s.shrink_to_fit(); f8String cs;
     struct P : MessageBase { static unsigned t(const f8String& a, f8String& b) { return extract_trailer(a, b); } };
     printf("RESULT %u\n", P::t(s, cs)); return 0;
+  }
+  if (mode == "frame") {
+    // a News message whose Text field is sized so that the payload is exactly T bytes (or as close as the fixed part allows); framing recomputed here
+    unsigned T = atoi(argv[2]);
+    UTEST::News *m = new UTEST::News;
+    *m->Header() << new UTEST::SenderCompID("A") << new UTEST::TargetCompID("B") << new UTEST::MsgSeqNum(1) << new UTEST::SendingTime(Tickval(true));
+    *m << new UTEST::Headline("h");
+    f8String probe; m->encode(probe);
+    size_t pay0 = probe.size() - 7 - probe.find("35=");      // payload with the 1-byte headline
+    std::string pad(T > pay0 ? T - pay0 : 0, 'x');
+    delete m; m = new UTEST::News;
+    *m->Header() << new UTEST::SenderCompID("A") << new UTEST::TargetCompID("B") << new UTEST::MsgSeqNum(1) << new UTEST::SendingTime(Tickval(true));
+    *m << new UTEST::Headline("h" + pad);
+    char *buf = new char[FIX8_MAX_MSG_LENGTH + 64 + T], *p = buf; size_t n = m->encode(&p); std::string e(p, n);
+    size_t b = e.find("\0019=") + 1, s = e.find('\001', b), body = s + 1, tr = e.size() - 7;
+    unsigned sum = 0; for (size_t i = 0; i < tr; ++i) sum += (unsigned char)e[i];
+    char exp[16]; snprintf(exp, sizeof exp, "10=%03u\001", sum & 255);
+    bool ok = e.compare(0, 10, "8=FIX.4.2\001") == 0 && b == 10 && std::to_string(tr - body) == e.substr(b + 2, s - b - 2) && e.compare(tr, 7, exp) == 0 && e.compare(body, 3, "35=") == 0;
+    printf("RESULT frame payload=%zu bodylength=%s trailer=%s -> %s\n", tr - body, e.substr(b + 2, s - b - 2).c_str(), hex(e.substr(tr)).c_str(), ok ? "ok" : "VIOLATED");
+    return ok ? 0 : 1;
   }
   if (mode != "factory" || argc < 5) return 9;
   std::string msg = unhex(argv[2]); bool nochk = atoi(argv[3]), perm = atoi(argv[4]);
